@@ -1130,9 +1130,12 @@ func (m *repoManager) newRepo(alias, description string, assign *dvid.UUID, pass
 
 	m.repoMutex.Lock()
 	m.repos[uuid] = r
+	m.repoMutex.Unlock()
+
+	m.idMutex.Lock()
 	m.versionToUUID[v] = uuid
 	m.uuidToVersion[uuid] = v
-	m.repoMutex.Unlock()
+	m.idMutex.Unlock()
 
 	m.branchMutex.Lock()
 	m.branchToUUID[string(uuid)+"master"] = uuid
